@@ -9,6 +9,7 @@ Vocabulary:  `chunks m n l` = `l.reshape(n, m)`;  `oneHot M d` = a block of `M` 
 -/
 import OptiVerif.Lemmas.PpmCodec
 import OptiVerif.Lemmas.PpmDecision
+import OptiVerif.Lemmas.PpmAppend
 import OptiVerif.Lemmas.BinSeqStrBits
 
 namespace OptiVerif.Props.C12
@@ -122,6 +123,39 @@ theorem decode_encode (M : Nat) (hM : 2 ≤ M) (b out : List Bool) (h : encode (
   rw [he] at h
   injection h with h
   rw [decode_seq M (by omega), decodeBits_encodeBits M _ hk hle b out h]
+
+/-- **encode_append**: the encoder is a homomorphism at symbol boundaries — if `b₁` is a whole number of `k`-bit symbols,
+    `PPM_ENCODER(b₁ ++ b₂, M) = PPM_ENCODER(b₁, M) ++ PPM_ENCODER(b₂, M)` (all three calls accepted) for every order `M ≥ 2`:
+    a frame can be encoded piecewise, and no symbol depends on its neighbours. -/
+theorem encode_append (M : Nat) (hM : 2 ≤ M) (b₁ b₂ : List Bool) (w₁ : b₁.length % Nat.log2 M = 0) :
+    ∃ o₁ o₂, encode (.seq b₁) (M : Int) = some (.ok o₁) ∧ encode (.seq b₂) (M : Int) = some (.ok o₂) ∧
+      encode (.seq (b₁ ++ b₂)) (M : Int) = some (.ok (o₁ ++ o₂)) := by
+  obtain ⟨he1, hk, _⟩ := encode_seq M hM b₁
+  obtain ⟨he2, _, _⟩ := encode_seq M hM b₂
+  obtain ⟨he, _, _⟩ := encode_seq M hM (b₁ ++ b₂)
+  have hkpos : Nat.log2 M > 0 := Nat.pos_of_ne_zero hk
+  obtain ⟨q, hq⟩ := Nat.dvd_of_mod_eq_zero w₁
+  have hdiv1 : b₁.length / Nat.log2 M = q := by rw [hq]; exact Nat.mul_div_cancel_left q hkpos
+  have hdiv : (b₁ ++ b₂).length / Nat.log2 M = q + b₂.length / Nat.log2 M := by
+    rw [List.length_append, hq]; exact Nat.mul_add_div hkpos q _
+  refine ⟨_, _, by rw [he1, encodeBits_eq M _ hk], by rw [he2, encodeBits_eq M _ hk], ?_⟩
+  rw [he, encodeBits_eq M _ hk, hdiv, hdiv1,
+    chunks_append (Nat.log2 M) q _ b₁ b₂ (by rw [hq, Nat.mul_comm]), List.map_append, List.flatten_append]
+
+/-- non-vacuity: 4-PPM, `b₁ = 10 11` (two symbols), `b₂ = 01` -/
+example : encode (.seq [true, false, true, true]) 4 = some (.ok [false, false, true, false, false, false, false, true]) ∧
+    encode (.seq [false, true]) 4 = some (.ok [false, true, false, false]) ∧
+    encode (.seq [true, false, true, true, false, true]) 4
+      = some (.ok [false, false, true, false, false, false, false, true, false, true, false, false]) := by decide
+
+/-- **decode_append**: the decoder is a homomorphism at symbol boundaries — if `s₁` is a whole number of `M`-slot symbols,
+    decoding `s₁ ++ s₂` gives the bits of `s₁` followed by the bits of `s₂` (or fails exactly when one of the parts does),
+    for every order `M ≥ 1` and ANY slot contents (valid codewords or not). -/
+theorem decode_append (M : Nat) (hM : 1 ≤ M) (s₁ s₂ : List Bool) (w₁ : s₁.length % M = 0) :
+    ∃ r₁ r₂, decode (.seq s₁) (M : Int) = some r₁ ∧ decode (.seq s₂) (M : Int) = some r₂ ∧
+      decode (.seq (s₁ ++ s₂)) (M : Int) = some (do let a ← r₁; let b ← r₂; pure (a ++ b)) := by
+  refine ⟨_, _, decode_seq M hM s₁, decode_seq M hM s₂, ?_⟩
+  rw [decode_seq M hM, decodeBits_append M _ s₁ s₂ w₁]
 
 /-- the encoder is injective on whole symbols (with `decode_encode`/`encode_decode`: a bijection between
     bit lists of whole symbols and valid codewords) -/
